@@ -256,6 +256,9 @@ def run_cli_merge(t: Dict[str, Any]) -> Dict[str, Any]:
         for nm, p_ in zip(names, parts):
             (d / nm).write_bytes(models.dumps(p_))
             files.append(str(d / nm))
+        if not repeat and core.derive(t["run_seed"], "odd") % 3 == 0:
+            files = odd_names(files, t["run_seed"])
+            probes["model_path_odd_names"] += 1
         if repeat:
             files.append(os.path.join(str(d), ".", names[0]) if core.derive(t["run_seed"], "spell") % 2 else files[0])
             want = models.merge_reference(parts + [parts[0]])
@@ -459,6 +462,24 @@ def _sub_for_gate(sub_seed: int) -> Dict[str, Any]:
     return json.loads(build_model({"base": "sub", "sub_seed": sub_seed, "lo": 2, "hi": 4})[0])
 
 
+def odd_names(files: List[str], run_seed: int) -> List[str]:
+    """Move the written model files under directory and file names with characters that mean something
+    to globbing, shells, expanduser/expandvars or argument splitting (to the generator they are plain
+    names); the same path named twice stays the same path named twice."""
+    pr_ = core.rng(run_seed, "oddnames")
+    moved: Dict[str, str] = {}
+    for i_, f_ in enumerate(files):
+        if f_ in moved:
+            continue
+        dn = pr_.choice(["models[draft]", "m[0-9]", "mod?ls", "m*", "{a,b}", "~user", "$HOME", "my models", "%TEMP%", "m#1;", "na\u00efve-\u6a21\u578b", "a=b", "@list"])
+        fn = pr_.choice(["bad[1].json", "m[ab].json", "b*d.json", "what?.json", "a b.json", "$x.json", "~.json", "m.json", "m.JSON", "m.json.bak", "m"])
+        nd = os.path.join(os.path.dirname(f_), f"{i_}", dn)
+        os.makedirs(nd, exist_ok=True)
+        moved[f_] = os.path.join(nd, fn)
+        os.replace(f_, moved[f_])
+    return [moved[f_] for f_ in files]
+
+
 def run_gate_class(t: Dict[str, Any]) -> Dict[str, Any]:
     init()
     ref: schema.Ref = G["ref"]
@@ -515,6 +536,11 @@ def run_gate_class(t: Dict[str, Any]) -> Dict[str, Any]:
                     spelled.append(os.path.join(os.path.dirname(f_), "..", os.path.basename(os.path.dirname(f_)), os.path.basename(f_)))
             files = spelled
             probes["model_path_symlink_or_dotdot"] += 1
+        elif files and core.derive(t["run_seed"], "spell") % 4 == 1:
+            # directory and file names with characters that mean something to globbing, shells,
+            # expanduser/expandvars or argument splitting: to the generator they are plain names
+            files = odd_names(files, t["run_seed"])
+            probes["model_path_odd_names"] += 1
         viol = gate_check(w, t["plugin"], files, t["prepopulate"], t["run_seed"], "schema-invalid", probes, repo=tree)
     finally:
         w.destroy()
@@ -557,7 +583,7 @@ def _probes() -> Dict[str, int]:
     return {k: 0 for k in ["loads", "readbacks", "merges", "merge_files", "compares", "node_compares", "equal_pairs_judged", "unequal_pairs_judged",
                            "annotation_only_pair", "alias_compared", "flip_kept_valid", "fault_schema_invalid", "fault_not_json", "gate_invocations",
                            "gate_prepopulated", "second_file_bad", "violation_class_fired", "edits_applied", "edits_with_rare_kinds", "load_rejected_valid",
-                           "plugin_probe_unavailable", "reloads_same_objects", "first_file_bad", "default_model_bad", "truncation_points", "cli_merge_runs", "cli_merge_repeated_path", "multi_violation_docs", "merged_vs_first_compares", "model_path_symlink_or_dotdot", "cross_class_compares", "twin_nodes_built", "merge_with_duplicates", "merge_with_empty_section", "merge_same_object_twice", "unreadable_enoent", "unreadable_eio", "unreadable_directory", "metadata_first_file"]}
+                           "plugin_probe_unavailable", "reloads_same_objects", "first_file_bad", "default_model_bad", "truncation_points", "cli_merge_runs", "cli_merge_repeated_path", "multi_violation_docs", "merged_vs_first_compares", "model_path_symlink_or_dotdot", "model_path_odd_names", "cross_class_compares", "twin_nodes_built", "merge_with_duplicates", "merge_with_empty_section", "merge_same_object_twice", "unreadable_enoent", "unreadable_eio", "unreadable_directory", "metadata_first_file"]}
 
 
 def _result(t: Dict[str, Any], viol: List[Dict[str, str]], probes: Dict[str, int], skipped: Optional[str] = None, evlog: Any = None) -> Dict[str, Any]:
@@ -1138,7 +1164,7 @@ def main(argv: List[str]) -> int:
         "run_kinds": kinds,
         "violation_classes_total": classes_total,
         "violation_classes_fired": classes_fired,
-        "faults_fired": {k: probes.get(k, 0) for k in ["fault_not_json", "fault_schema_invalid", "flip_kept_valid", "second_file_bad", "first_file_bad", "default_model_bad", "truncation_points", "cli_merge_runs", "cli_merge_repeated_path", "multi_violation_docs", "merged_vs_first_compares", "model_path_symlink_or_dotdot", "cross_class_compares", "twin_nodes_built", "merge_with_duplicates", "merge_with_empty_section", "merge_same_object_twice", "violation_class_fired",
+        "faults_fired": {k: probes.get(k, 0) for k in ["fault_not_json", "fault_schema_invalid", "flip_kept_valid", "second_file_bad", "first_file_bad", "default_model_bad", "truncation_points", "cli_merge_runs", "cli_merge_repeated_path", "multi_violation_docs", "merged_vs_first_compares", "model_path_symlink_or_dotdot", "model_path_odd_names", "cross_class_compares", "twin_nodes_built", "merge_with_duplicates", "merge_with_empty_section", "merge_same_object_twice", "violation_class_fired",
                                                         "unreadable_enoent", "unreadable_eio", "unreadable_directory", "gate_prepopulated"]},
         "probes": probes,
         "skipped": skipped,
